@@ -455,6 +455,18 @@ class Process:
             self._hash = hash(self._ident)
         return self._hash
 
+    def _start_times(self, other):
+        """Return the start times of this process and of *other* on
+        one and the same clock, in order to tell which one is older.
+        On Linux these are seconds since boot: create_time() adds the
+        boot time, which changes when the system clock is updated, so
+        a create_time() cached before a clock update is not comparable
+        with one read after it.
+        """
+        if LINUX and self._ident[1] is not None:
+            return (self._ident[1], other._proc.create_time(monotonic=True))
+        return (self.create_time(), other.create_time())
+
     def _raise_if_pid_reused(self):
         """Raises NoSuchProcess in case process PID has been reused."""
         if self._gone and not self._pid_reused:
@@ -603,10 +615,10 @@ class Process:
             return None
         ppid = self.ppid()
         if ppid is not None:
-            ctime = self.create_time()
             try:
                 parent = Process(ppid)
-                if parent.create_time() <= ctime:
+                ctime, parent_ctime = self._start_times(parent)
+                if parent_ctime <= ctime:
                     return parent
                 # ...else ppid has been reused by another process
             except NoSuchProcess:
@@ -1007,7 +1019,8 @@ class Process:
                         child = Process(pid)
                         # if child happens to be older than its parent
                         # (self) it means child's PID has been reused
-                        if self.create_time() <= child.create_time():
+                        ctime, child_ctime = self._start_times(child)
+                        if ctime <= child_ctime:
                             ret.append(child)
                     except (NoSuchProcess, ZombieProcess):
                         pass
@@ -1036,7 +1049,8 @@ class Process:
                         child = Process(child_pid)
                         # if child happens to be older than its parent
                         # (self) it means child's PID has been reused
-                        intime = self.create_time() <= child.create_time()
+                        ctime, child_ctime = self._start_times(child)
+                        intime = ctime <= child_ctime
                         if intime:
                             ret.append(child)
                             stack.append(child_pid)
